@@ -77,6 +77,9 @@ func gen(tier string, seed int64) []hx.Scenario {
 	for _, t := range trees {
 		out = append(out, hx.Scenario{Name: "hashproof", Cfg: t.String(), Run: func(x *hx.Ctx) { hashCase(x, t) }})
 	}
+	for _, l := range []int{1, 31, 32, 33, 63, 64, 65, 127, 128, 129, 300} {
+		out = append(out, hx.Scenario{Name: "protocol-name", Cfg: fmt.Sprintf("len=%d", l), Run: func(x *hx.Ctx) { nameCase(x, l) }})
+	}
 	for pair := 0; pair < 3; pair++ {
 		for order := 0; order < 3; order++ {
 			out = append(out, hx.Scenario{Name: "shared-subpredicates", Cfg: fmt.Sprintf("pair=%d order=%d", pair, order), Run: func(x *hx.Ctx) { sharedCase(x, pair, order) }})
@@ -252,6 +255,33 @@ func hashCase(x *hx.Ctx, t tree) {
 			break
 		}
 	}
+}
+
+// nameCase: the protocol name is bound as a whole, whatever its length: a proof made under a name of l bytes verifies
+// under that name and under no name that differs from it anywhere (last byte, a byte in the middle, one byte more or less).
+func nameCase(x *hx.Ctx, l int) {
+	s := x.S
+	t := tree{[]string{"C", "B"}, []bool{false, true}, 1}
+	b := build(s, t, false)
+	choice := map[proof.Predicate]int{b.pred: 1}
+	name := strings.Repeat("protocol-name-", l/14+1)[:l]
+	prf, err := proof.HashProve(s, name, b.pred.Prover(s, b.sec, b.pts, choice))
+	if !x.NoErr("HashProve", err) {
+		return
+	}
+	x.NoErr("HashVerify under the same name", proof.HashVerify(s, name, b.pred.Verifier(s, b.pts), prf))
+	x.Err("name extended by one byte", proof.HashVerify(s, name+"x", b.pred.Verifier(s, b.pts), prf))
+	x.Err("name extended by a long suffix", proof.HashVerify(s, name+strings.Repeat("y", 70), b.pred.Verifier(s, b.pts), prf))
+	x.Err("name shortened by one byte", proof.HashVerify(s, name[:l-1], b.pred.Verifier(s, b.pts), prf))
+	last := []byte(name)
+	last[l-1] ^= 1
+	x.Err("last byte of the name altered", proof.HashVerify(s, string(last), b.pred.Verifier(s, b.pts), prf))
+	mid := []byte(name)
+	mid[l/2] ^= 1
+	x.Err("middle byte of the name altered", proof.HashVerify(s, string(mid), b.pred.Verifier(s, b.pts), prf))
+	first := []byte(name)
+	first[0] ^= 1
+	x.Err("first byte of the name altered", proof.HashVerify(s, string(first), b.pred.Verifier(s, b.pts), prf))
 }
 
 // sharedCase: predicate objects are values a caller may combine into several trees (the package documents them as
